@@ -137,4 +137,14 @@ end
 def lift (body : Stmt) : Out :=
   visit body 0 [{ depth := 0, stmts := [], preds := [], succs := [] }]
 
+/-- `edges` of `run_complexity_analysis` (`definition_complexity.rs`): the sum of the sizes of the successor sets -/
+def edges (bs : List Block) : Nat := (bs.map (fun b => b.succs.length)).sum
+
+/-- `2 + edges - nodes`, with the truncated subtraction of `Nat` (the Rust code panics in a debug build, and wraps in a release
+    build, where this truncates); `C12_complexity_defined`: on a lifted CFG nothing is truncated -/
+def complexity (bs : List Block) : Nat := 2 + edges bs - bs.length
+
+/-- `MAX_CYCLOMATIC_COMPLEXITY` -/
+def tooComplex (bs : List Block) : Bool := decide (20 < complexity bs)
+
 end Circomspect.CfgLift
